@@ -48,8 +48,11 @@ WITNESS_SCOPE = {
 def open_devs(ctx):
     """deviation names whose finding is open (in any of the three properties)."""
     out = []
+    # VERIF_ASSUME_FIXED=D_C06_x,D_C06_y: treat these findings as fixed (used to verify a proposed fix in a
+    # private repository copy before the finding's status is changed)
+    assume = set(filter(None, os.environ.get("VERIF_ASSUME_FIXED", "").split(",")))
     for f in ctx.findings:
-        if f.get("status") == "open" and f["id"] in FID2DEV:
+        if f.get("status") == "open" and f["id"] in FID2DEV and f["id"] not in assume:
             out.append(FID2DEV[f["id"]])
     return sorted(out)
 
